@@ -79,6 +79,16 @@ theorem extendVars_eq (s : Schema) (es : List Entry) (acc : Vars) :
   unfold extendVars
   rw [List.foldl_map]
 
+theorem getVariableValue_nodefault (s : Schema) (d : VarDef) (tr : TypeRef) (input : JVal)
+    (ht : d.type = some tr) (hd : d.default = none) (hi : isInputType s (typeOfRef tr) = true)
+    (hv : isValidInputValue s (typeOfRef tr) input = true) :
+    getVariableValue s d input = .ok (coerceValue s (typeOfRef tr) input) := by
+  unfold getVariableValue
+  rw [ht]
+  simp only [hi, hv, Bool.not_true, Bool.false_eq_true, if_false, if_true]
+  rw [hd]
+  cases input.isNull <;> rfl
+
 theorem synthDefs_go (s : Schema) (inputs' : Vars) : ∀ (es : List Entry) (acc : Vars),
     (∀ e ∈ es, lookupD inputs' e.name = lti e.lit) →
     (∀ e ∈ es, isInputType s e.type = true ∧ isValidInputValue s e.type (lti e.lit) = true) →
@@ -93,12 +103,29 @@ theorem synthDefs_go (s : Schema) (inputs' : Vars) : ∀ (es : List Entry) (acc 
         .ok (coerceValue s e.type (lti e.lit)) := by
       have : (mkVarDef e).var.value = e.name := rfl
       rw [this, hin e List.mem_cons_self]
-      unfold getVariableValue
-      simp only [mkVarDef, typeOfRef_typeRefOf, h1, h2, Bool.not_true, Bool.false_eq_true, if_false, if_true]
-      cases (lti e.lit).isNull <;> rfl
+      have := getVariableValue_nodefault s (mkVarDef e) (typeRefOf e.type) (lti e.lit) rfl rfl
+        (by rw [typeOfRef_typeRefOf]; exact h1) (by rw [typeOfRef_typeRefOf]; exact h2)
+      rw [typeOfRef_typeRefOf] at this
+      exact this
     simp only [List.map_cons, getVariableValuesGo, hv]
     rw [ih _ (fun e' he' => hin e' (List.mem_cons_of_mem _ he')) (fun e' he' => hok e' (List.mem_cons_of_mem _ he'))]
     rfl
+
+theorem lastVal_some_mem : ∀ (qs : List (String × JVal)) (k : String) (w : JVal),
+    lastVal qs k = some w → k ∈ qs.map (·.1) := by
+  intro qs
+  induction qs with
+  | nil => intro k w h; cases h
+  | cons q qs ihq =>
+    intro k w h
+    simp only [lastVal] at h
+    cases hq : lastVal qs k with
+    | some w' => simp only [List.map_cons, List.mem_cons]; exact Or.inr (ihq k w' hq)
+    | none =>
+      rw [hq] at h
+      by_cases hk : (q.1 == k) = true
+      · simp only [List.map_cons, List.mem_cons]; exact Or.inl (beq_iff_eq.mp hk).symm
+      · simp [hk] at h
 
 theorem lastVal_of_nodup : ∀ (es : List (String × JVal)) (k : String) (v : JVal),
     (es.map (·.1)).Nodup → (k, v) ∈ es → lastVal es k = some v := by
@@ -113,24 +140,7 @@ theorem lastVal_of_nodup : ∀ (es : List (String × JVal)) (k : String) (v : JV
     · have : lastVal ps k = none := by
         cases hl : lastVal ps k with
         | none => rfl
-        | some w =>
-          exfalso
-          -- a value found in `ps` means the key occurs in `ps`
-          have : ∀ (qs : List (String × JVal)), lastVal qs k = some w → k ∈ qs.map (·.1) := by
-            intro qs
-            induction qs with
-            | nil => intro h; cases h
-            | cons q qs ihq =>
-              intro h
-              simp only [lastVal] at h
-              cases hq : lastVal qs k with
-              | some w' => simp [ihq hq]
-              | none =>
-                rw [hq] at h
-                by_cases hk : (q.1 == k) = true
-                · simp [beq_iff_eq.mp hk]
-                · simp [hk] at h
-          exact hnd.1 (this ps hl)
+        | some w => exact absurd (lastVal_some_mem ps k w hl) hnd.1
       simp [this]
     · rw [ih k v hnd.2 hm']
 
@@ -157,7 +167,9 @@ theorem realises_extendVars (s : Schema) (es : List Entry) (acc : Vars) (hnd : (
     Realises s (extendVars s es acc) es := by
   intro e he
   rw [extendVars_eq, lookupD_foldl, lastVal_of_nodup _ e.name (coerceValue s e.type (lti e.lit))]
-  · simpa [List.map_map] using hnd
+  · have : (es.map (fun e => (e.name, coerceValue s e.type (lti e.lit)))).map (·.1) = es.map (·.name) := by
+      simp [List.map_map, Function.comp_def]
+    rw [this]; exact hnd
   · exact List.mem_map.mpr ⟨e, he, rfl⟩
 
 /-- **piece 1.** `getVariableValues` of the normalised operation on (SynthArgs over the client's variables): the
@@ -179,7 +191,10 @@ theorem getVariableValues_normalised (s : Schema) (vars : List VarDef) (es : Lis
     intro p hp
     obtain ⟨e, he, rfl⟩ := List.mem_map.mp hp
     intro heq
-    exact hfresh e he (heq ▸ List.mem_map.mpr ⟨d, hd, rfl⟩)
+    have heq' : e.name = d.var.value := heq
+    apply hfresh e he
+    rw [heq']
+    exact List.mem_map.mpr ⟨d, hd, rfl⟩
   rw [hsame]
   cases getVariableValuesGo s inputs vars [] with
   | error e => rfl
@@ -188,7 +203,9 @@ theorem getVariableValues_normalised (s : Schema) (vars : List VarDef) (es : Lis
     apply synthDefs_go
     · intro e he
       apply lookupD_append_mem
-      · simpa [List.map_map] using hnd
+      · have : (es.map (fun e => (e.name, lti e.lit))).map (·.1) = es.map (·.name) := by
+          simp [List.map_map, Function.comp_def]
+        rw [this]; exact hnd
       · exact List.mem_map.mpr ⟨e, he, rfl⟩
     · exact hok
 
